@@ -1376,6 +1376,10 @@ func ruleInitializingProvenance(rule string) func(*Ctx) {
 									if tv := sinfo.Types[st.Value]; tv.Value != nil && tv.Value.String() == "false" {
 										okStore = true
 									}
+									// constant true where a fresh root is created (same condition as for a positional argument)
+									if tv := sinfo.Types[st.Value]; tv.Value != nil && tv.Value.String() == "true" && c.onlyFromInitialize(st.In, 0) && (index == nil || cs.Target != index) {
+										okStore = true
+									}
 									if o := objOfIdent(sinfo, st.Value); o != nil {
 										for g := st.In; g != nil; g = g.Outer {
 											if pv := paramVar(g, "initializing"); pv != nil && types.Object(pv) == o {
@@ -4668,6 +4672,17 @@ func ruleRenameMoves(rule string) func(*Ctx) {
 			}
 			if !success {
 				continue
+			}
+			// renaming an entry onto itself changes nothing: success without a move is right where source and
+			// destination are known to be the same entry
+			if _, isCmp := renameIdentity(f); isCmp != nil {
+				if same, reach := fl.guardedBy(ret, func(ft Fact) bool {
+					b, ok := isCmp(ft.E)
+					return ok && ((b.Op == token.EQL) == ft.Pos)
+				}, nil); reach && same {
+					c.ok(rule, f, fmt.Sprintf("return#%d", i+1), ret.Pos(), true, "success without a move only where source and destination are the same entry")
+					continue
+				}
 			}
 			n++
 			c.bad(rule, f, fmt.Sprintf("success without Move#%d", n-viaMove), ret.Pos(), "Rename can report success here without having called Operations.Move (the returned error is nil on this path): with an existing destination of the same kind the destination is removed, the source stays where it was, and the caller is told the rename happened")
